@@ -189,6 +189,17 @@ def run(ctx):
         # LB_Keogh
         if not nd:
             wl = rng.choice([None, 1, 2, 3, rng.randint(1, max(r, c) + 1)])
+            if rng.random() < 0.3:
+                # non-contiguous views with the same values (a channel of a time x channel recording, a down-sampled
+                # signal): the bound must not depend on the memory layout
+                def view_(a_):
+                    m_ = np.full((len(a_), 3), 977.0 * (rng.random() - 0.5))
+                    m_[:, 1] = a_
+                    return m_[:, 1] if rng.random() < 0.5 else np.repeat(a_, 2)[::2]
+                wh_ = rng.choice([0, 1, 2])
+                s1 = view_(s1) if wh_ in (0, 2) else s1
+                s2 = view_(s2) if wh_ in (1, 2) else s2
+                ctx.count("lb_keogh_non_contiguous_view_cases")
             for use_c in (False, True):
                 ctx.current("lb_keogh use_c=%s %r %r w=%r %s" % (use_c, s1.tolist(), s2.tolist(), wl, inner))
                 try:
